@@ -97,6 +97,25 @@ NEEDS.update({
 NEEDS.update({
  "C04i": ("round challenges u_j pulled from one ChaCha stream keyed once after the ipp domain separator (both roles); L_j, R_j still absorbed", "at least one round: (L_j, R_j) -> (L_j + D, R_j - u_j^4 D) still verifies"),
 })
+NEEDS.update({
+ "C01j": ("verifier squeezes the batching weight r from the live transcript instead of a clone", "a second proof on the same running transcript is rejected"),
+ "C02j": ("constraint weights via scalar_exp_vartime(z, j+1) that loops over size_of::<usize>() = 8 bit positions: z^((j+1) mod 256)", "more than 256 constraints with cancelling violations 256 apart"),
+ "C03j": ("round-count guard lg_n >= 32 became lg_n > MAX_FOLDING_ROUNDS with MAX_FOLDING_ROUNDS = u8::BITS (8)", "honest proofs with 9 or more rounds (more than 256 multipliers) rejected"),
+ "C04j": ("append_point serialises inside debug_assert!(..is_ok()); validate_and_append_point delegates to it", "--release: every point absorbed as an empty message, offset pairs accepted"),
+ "C05j": ("the three serialize_uncompressed(..).unwrap() of transcript.rs moved inside debug_assert!", "--release: commitments no longer bind the challenges; reordered / offset commitment lists accepted"),
+ "C06j": ("RandomizingProver/Verifier cache randomized-phase challenges by label", "the same label drawn twice in the randomized phase: second challenge binds nothing new"),
+ "C07j": ("batch_verify adds `if gens_capacity <= max_n_padded { return Err(InvalidGeneratorsLength) }`", "widest member's padded size equals the generator capacity: valid batch rejected"),
+ "C08j": ("shape guard n != (1 << lg_n) weakened to (1 << lg_n) > n", "equally short L/R lists: index underflow panic instead of an error"),
+ "C09j": ("external randomness drawn into a seed inside debug_assert!(prng.try_fill_bytes(..).is_ok()), RNG finalised from that seed", "--release: caller randomness never reaches the prover RNG"),
+ "C10j": ("rounds 2..k of create absorb L/R through debug_assert!(transcript.validate_and_append_point(..).is_ok())", "--release and at least 2 rounds: honest arguments rejected"),
+ "C11j": ("to_bytes serialises into a thread_local scratch Cursor that is rewound but never cleared", "a smaller proof encoded after a larger one on the same thread keeps the stale tail"),
+ "C12j": ("fast_forward advances the chain with debug_assert!(self.next().is_some())", "--release and increase_capacity from a non-zero capacity: nothing skipped, generators duplicated"),
+ "C13j": ("commit as interleaved double-scalar multiplication; the skip of the padding bits sits inside debug_assert_eq!", "--release on a curve whose scalar size is not a multiple of 64 bits: low bits lost"),
+ "C15j": ("LC Sub appends the right-hand terms and negates them through debug_assert!(self.negate_from(from))", "--release: a - b denotes a + b"),
+ "C16j": ("Verifier::pending_multiplier becomes Option<NonZeroUsize> (NonZeroUsize::new(0) is None)", "the first gate (index 0) opened by a single allocate: verifier handles shifted"),
+ "C17j": ("padded-size guard rewritten as gens_capacity.saturating_sub(n) < pad on both roles", "capacity < n with n a power of two (pad = 0): panic instead of the error"),
+ "C18j": ("PedersenGens::default caches the blinding-base seed in a static OnceLock inside a generic function (shared by all curves)", "two curves used in one process: B_blinding of the second differs from the reference"),
+})
 sid = sys.argv[1]
 src = f"/tmp/seed_out/{sid}"
 dst = f"/verif/seeded/{sid}"
@@ -111,7 +130,7 @@ for f in ("patch.diff", "seed_demo.rs", "notes.md", "confirm.txt"):
 what, needs = NEEDS.get(sid, ("", ""))
 meta = {
  "id": sid, "breaks_property": sid[:3], "change": what, "needs_to_manifest": needs,
- "origin": ("written by an independent sub-agent given only the property text and a scratch worktree" + (", asked for two cooperating sites / a multi-step sequence / an unusual input (round h)" if sid.endswith("h") else (", asked for a control-flow slip / an error-path or partial-update slip / an abstraction slip (round i)" if sid.endswith("i") else ""))),
+ "origin": ("written by an independent sub-agent given only the property text and a scratch worktree" + (", asked for two cooperating sites / a multi-step sequence / an unusual input (round h)" if sid.endswith("h") else (", asked for a control-flow slip / an error-path or partial-update slip / an abstraction slip (round i)" if sid.endswith("i") else (", asked for a numeric/representation slip, an API-sequence or cached-state slip, or build-dependent behaviour (round j; demos of build-dependent seeds run with --release)" if sid.endswith("j") else "")))),
  "confirmed_by": "tools/confirm_seed.sh in a scratch worktree outside /repo and /verif: demo passes on the pristine tree; with the patch all 78 existing tests pass and the demo fails",
  "confirm_verdict": (re.search(r"== verdict: (.*)", conf).group(1) if re.search(r"== verdict: (.*)", conf) else "see confirm.txt"),
  "demo": "seed_demo.rs (place at tests/seed_demo.rs; `cargo test --offline --test seed_demo`)",
